@@ -144,5 +144,8 @@ func (w *WindowNode) validate() error {
 	if w.PeriodCount != 0 && w.EveryCount <= 0 {
 		return errors.New("everyCount must be greater than zero")
 	}
+	if w.PeriodCount < 0 {
+		return errors.New("periodCount must not be negative")
+	}
 	return nil
 }
